@@ -1,7 +1,8 @@
 // Cases of hC10 that follow a sample beyond the single shot (round 6):
 //
-//	scfile <yaml|hcl> <k> <decl>,<decl>... <scen>;<scen>...
-//	       decl = <name>:<tag|->:<kind>   a request of the scenario FILE (kind: s<status> reset trunc pp<status>)
+//	scfile <yaml|hcl|gyaml|ghcl> <k> <decl>,<decl>... <scen>;<scen>...
+//	       decl = <name>:<tag|->:<kind>   a request of the scenario FILE (kind: s<status> reset trunc pp<status>); g...: a call of a gRPC
+//	              scenario file (kind: st<code> post<code> badcall badpayload), read by the grpc/scenario provider, shot by the grpc/scenario gun
 //	       scen = <name>=<item>,<item>...   item = <request name> | <request name>*<cnt> | <request name>*<cnt>+ (with a sleep
 //	              argument) | sl (a "sleep(1)" entry)
 //	       The file is written in YAML or HCL, read by the REAL http/scenario provider (decoded from an `ammo:` section by
@@ -70,20 +71,63 @@ func scItemText(it string) string {
 	return fmt.Sprintf("%s(%s)", name, cnt)
 }
 
-func scFileText(format string, decls []scDecl, scens []string) string {
+// the calls of a gRPC scenario file: kind st<code> | post<code> (a failing assert after the call) | badcall | badpayload
+func scCallParts(kind string) (call, payload, status string, pp bool) {
+	call, payload = helloMethod, `{"name":"x"}`
+	switch {
+	case kind == "badcall":
+		call = "target.TargetService.NoSuchMethod"
+	case kind == "badpayload":
+		payload = `{"nosuchfield":1}`
+	case strings.HasPrefix(kind, "post"):
+		status, pp = kind[4:], true
+	default:
+		status = kind[2:]
+	}
+	return
+}
+
+func scGrpcFileText(format string, decls []scDecl, scens []string) string {
 	var sb strings.Builder
-	if format == "hcl" {
+	if format == "ghcl" {
 		for _, d := range decls {
-			xv, pp := scHeaders(d.kind)
-			fmt.Fprintf(&sb, "request %q {\n  method = \"GET\"\n  uri = \"/x\"\n  headers = {\n    X-Verif = %q\n  }\n", d.name, xv)
+			call, payload, status, pp := scCallParts(d.kind)
+			fmt.Fprintf(&sb, "call %q {\n  call = %q\n  payload = %q\n", d.name, call, payload)
 			if d.tag != "" {
 				fmt.Fprintf(&sb, "  tag = %q\n", d.tag)
+			}
+			if status != "" {
+				fmt.Fprintf(&sb, "  metadata = {\n    \"x-status\" = %q\n  }\n", status)
 			}
 			if pp {
 				sb.WriteString("  postprocessor \"assert/response\" {\n    status_code = 1\n  }\n")
 			}
 			sb.WriteString("}\n")
 		}
+		sb.WriteString(scScenariosText("hcl", scens))
+		return sb.String()
+	}
+	sb.WriteString("calls:\n")
+	for _, d := range decls {
+		call, payload, status, pp := scCallParts(d.kind)
+		fmt.Fprintf(&sb, "  - name: %q\n    call: %q\n    payload: %q\n", d.name, call, payload)
+		if d.tag != "" {
+			fmt.Fprintf(&sb, "    tag: %q\n", d.tag)
+		}
+		if status != "" {
+			fmt.Fprintf(&sb, "    metadata:\n      x-status: %q\n", status)
+		}
+		if pp {
+			sb.WriteString("    postprocessors:\n      - type: assert/response\n        status_code: 1\n")
+		}
+	}
+	sb.WriteString(scScenariosText("yaml", scens))
+	return sb.String()
+}
+
+func scScenariosText(format string, scens []string) string {
+	var sb strings.Builder
+	if format == "hcl" {
 		for _, sc := range scens {
 			nm, items, _ := strings.Cut(sc, "=")
 			fmt.Fprintf(&sb, "scenario %q {\n  min_waiting_time = 0\n  requests = [", string(vh.UnHex(nm)))
@@ -97,6 +141,37 @@ func scFileText(format string, decls []scDecl, scens []string) string {
 		}
 		return sb.String()
 	}
+	sb.WriteString("scenarios:\n")
+	for _, sc := range scens {
+		nm, items, _ := strings.Cut(sc, "=")
+		fmt.Fprintf(&sb, "  - name: %q\n    min_waiting_time: 0\n    requests:\n", string(vh.UnHex(nm)))
+		for _, it := range strings.Split(items, ",") {
+			fmt.Fprintf(&sb, "      - %q\n", scItemText(it))
+		}
+	}
+	return sb.String()
+}
+
+func scFileText(format string, decls []scDecl, scens []string) string {
+	if strings.HasPrefix(format, "g") {
+		return scGrpcFileText(format, decls, scens)
+	}
+	var sb strings.Builder
+	if format == "hcl" {
+		for _, d := range decls {
+			xv, pp := scHeaders(d.kind)
+			fmt.Fprintf(&sb, "request %q {\n  method = \"GET\"\n  uri = \"/x\"\n  headers = {\n    X-Verif = %q\n  }\n", d.name, xv)
+			if d.tag != "" {
+				fmt.Fprintf(&sb, "  tag = %q\n", d.tag)
+			}
+			if pp {
+				sb.WriteString("  postprocessor \"assert/response\" {\n    status_code = 1\n  }\n")
+			}
+			sb.WriteString("}\n")
+		}
+		sb.WriteString(scScenariosText("hcl", scens))
+		return sb.String()
+	}
 	sb.WriteString("requests:\n")
 	for _, d := range decls {
 		xv, pp := scHeaders(d.kind)
@@ -108,14 +183,7 @@ func scFileText(format string, decls []scDecl, scens []string) string {
 			sb.WriteString("    postprocessors:\n      - type: assert/response\n        status_code: 1\n")
 		}
 	}
-	sb.WriteString("scenarios:\n")
-	for _, sc := range scens {
-		nm, items, _ := strings.Cut(sc, "=")
-		fmt.Fprintf(&sb, "  - name: %q\n    min_waiting_time: 0\n    requests:\n", string(vh.UnHex(nm)))
-		for _, it := range strings.Split(items, ",") {
-			fmt.Fprintf(&sb, "      - %q\n", scItemText(it))
-		}
-	}
+	sb.WriteString(scScenariosText("yaml", scens))
 	return sb.String()
 }
 
@@ -134,12 +202,17 @@ func runScFile(f []string) string {
 		}
 		decls = append(decls, scDecl{name: string(vh.UnHex(p[0])), tag: string(vh.UnHex(p[1])), kind: p[2]})
 	}
+	grpcFile := strings.HasPrefix(format, "g")
+	kind, ext := "http/scenario", format
+	if grpcFile {
+		kind, ext = "grpc/scenario", format[1:]
+	}
 	ammoSeq++
-	file := fmt.Sprintf("/scenario-%d.%s", ammoSeq, format)
+	file := fmt.Sprintf("/scenario-%d.%s", ammoSeq, ext)
 	if err := afero.WriteFile(cfgFs, file, []byte(scFileText(format, decls, strings.Split(f[4], ";"))), 0o644); err != nil {
 		return "writeerr"
 	}
-	tree, err := yamlTree(fmt.Sprintf("ammo:\n  type: http/scenario\n  file: %q\n  limit: %d\n", file, k))
+	tree, err := yamlTree(fmt.Sprintf("ammo:\n  type: %s\n  file: %q\n  limit: %d\n", kind, file, k))
 	if err != nil {
 		return "yamlerr"
 	}
@@ -151,8 +224,12 @@ func runScFile(f []string) string {
 	}
 	t := theTarget()
 	t.SetConnectMode("ok")
+	addr := t.Addr()
+	if grpcFile {
+		addr = theGrpcTarget().Addr
+	}
 	ag := &coreAggr{}
-	g, what := gunFromYAML(fmt.Sprintf("gun:\n  type: http/scenario\n  target: %q\n", t.Addr()), ag)
+	g, what := gunFromYAML(fmt.Sprintf("gun:\n  type: %s\n  target: %q\n", kind, addr), ag)
 	if g == nil {
 		return what
 	}
@@ -357,11 +434,13 @@ func genRun(r *vh.Rand, tier string) []string {
 		}
 		return r.Pick(names)
 	}
-	nf := 60
+	nf := 90
 	if tier == "thorough" {
 		nf = 1500
 	}
 	for i := 0; i < nf; i++ {
+		format := r.Pick([]string{"yaml", "yaml", "hcl", "gyaml", "ghcl"})
+		grpcFile := strings.HasPrefix(format, "g")
 		nd := r.Range(2, 5)
 		var decls, declared []string
 		for j := 0; j < nd; j++ {
@@ -373,6 +452,12 @@ func genRun(r *vh.Rand, tier string) []string {
 			kind := fmt.Sprintf("s%d", r.Range(200, 599))
 			if r.Chance(1, 7) {
 				kind = r.Pick([]string{"reset", "trunc", "pp200", "pp500"})
+			}
+			if grpcFile {
+				kind = fmt.Sprintf("st%d", r.Range(0, 17))
+				if r.Chance(1, 7) {
+					kind = r.Pick([]string{"badcall", "badpayload", "post0", "post5"})
+				}
 			}
 			decls = append(decls, fmt.Sprintf("%s:%s:%s", vh.HexS(nm), vh.HexS(tagFor(nm)), kind))
 		}
@@ -404,7 +489,7 @@ func genRun(r *vh.Rand, tier string) []string {
 			}
 			scens = append(scens, vh.HexS(r.Pick([]string{"sc", "shop", "my scenario"})+strconv.Itoa(j))+"="+strings.Join(items, ","))
 		}
-		out = append(out, fmt.Sprintf("scfile %s %d %s %s", r.Pick([]string{"yaml", "yaml", "hcl"}), r.Range(1, 2*ns+1), strings.Join(decls, ","), strings.Join(scens, ";")))
+		out = append(out, fmt.Sprintf("scfile %s %d %s %s", format, r.Range(1, 2*ns+1), strings.Join(decls, ","), strings.Join(scens, ";")))
 	}
 	// bursts into a small phout queue
 	out = append(out, "phoutq 1 hh 10", "phoutq 8 hhh 40", "phoutq 0 hs 8", "phoutq 2 hsg 12", "phoutq 64 hhhhhh 30")
